@@ -149,6 +149,147 @@ def duplicates_leg(ck, H):
             ck.nontrivial(('duplicates', tuple(lines), threads, js))
 
 
+POLICY = """name = "C08 policy"
+version = 1
+host keys = ssh-ed25519
+key exchanges = curve25519-sha256, kex-strict-s-v00@openssh.com
+ciphers = aes256-gcm@openssh.com
+macs = hmac-sha2-256-etm@openssh.com
+"""
+
+
+def _policy_blocks(stdout):
+    """Text of a policy audit over a target list -> {host: result line}"""
+    import re
+    from harness import report
+    out = report.strip_ansi(stdout)
+    res = {}
+    for m in re.finditer(r'Host:\s+(\S+)\s*\n(?:.*\n)?Result:\s*(.*)', out):
+        res.setdefault(m.group(1), []).append(('Passed' in m.group(2)) and 'Failed' not in m.group(2))
+    return res
+
+
+def policy_leg(ck, H, F):
+    """Policy audits (-P) over a target list: every healthy target gets exactly one verdict - the verdict of its single-target policy
+    audit - whatever else is on the list, and the run's status is the highest-ranked status among the targets."""
+    arch = {n: ('server', c) for n, c in H.items() if n in ('good', 'warn', 'fail')}
+    fl = ('refused', 'close-after-banner', 'unresolvable', 'gex-probe-silent')       # (archetypes that end read_packet in sys.exit() are the recorded finding of the main leg)
+    arch.update({n: F[n] for n in fl})
+    names = sorted(arch)
+    singles = {}
+    sscs = []
+    for n in names:
+        for pos in range(3):
+            sc = multi.single_scenario(arch[n], pos, json_out=False, extra=['-P', '{tmp}/policy.txt'])
+            sc['files'] = {'policy.txt': POLICY}
+            sscs.append(sc)
+    for (n, pos), r in zip([(n, pos) for n in names for pos in range(3)], runner.run_many(sscs)):
+        if r.get('harness_error') or r.get('hang'):
+            raise common.Machinery('single-target policy run failed for %r' % (n,))
+        singles[(n, pos)] = r
+    hn = [n for n in names if n in H]
+    lists = [(a, b) for a in hn for b in hn] + [(f, h) for f in fl for h in hn] + [(h, f) for f in fl for h in hn] + [('warn', 'refused', 'good'), ('fail', 'warn', 'close-after-banner')]
+    scs, meta = [], []
+    for lst in lists:
+        for k in (1, len(lst)):
+            sc, labels = multi.scenario([arch[n] for n in lst], k, None, json_out=False, extra=['-P', '{tmp}/policy.txt'])
+            sc['files']['policy.txt'] = POLICY
+            scs.append(sc)
+            meta.append((lst, k, labels))
+    for (lst, k, labels), sc, r in zip(meta, scs, runner.run_many(scs)):
+        ck.evaluated()
+        replay = {'targets': lst, 'threads': k, 'argv': sc['argv'], 'exit': r.get('exit'), 'stdout': (r.get('stdout') or '')[-3000:]}
+        if r.get('harness_error'):
+            raise common.Machinery('policy list run failed: %r' % r.get('harness_error'))
+        tag = 'with=%s' % '+'.join(sorted({n for n in lst if n not in H})) if any(n not in H for n in lst) else 'healthy-only'
+        if r.get('hang'):
+            ck.violation('policy-list-run-never-ends %s' % tag, 'policy audit of %r, %d thread(s): the run never ended' % (lst, k), replay)
+            continue
+        want = max((singles[(n, i)]['exit'] for i, n in enumerate(lst)), key=lambda s_: RANK.get(s_, 9))
+        got = _policy_blocks(r['stdout'])
+        bad = False
+        for i, n in enumerate(lst):
+            if n not in H:
+                continue
+            host = labels[i].rsplit(':', 1)[0]
+            ref = _policy_blocks(singles[(n, i)]['stdout']).get(host)
+            if not ref or len(ref) != 1:
+                raise common.Machinery('cannot read the single-target policy verdict of %s' % n)
+            if got.get(host) != ref:
+                ck.violation('policy-list-healthy-verdict-missing-or-changed %s' % tag, 'policy audit of %r, %d thread(s): target %s (%s) has verdicts %r, its own policy audit gives %r'
+                             % (lst, k, host, n, got.get(host), ref), replay)
+                bad = True
+                break
+        if not bad and r['exit'] != want:
+            ck.violation('policy-list-exit-status-not-max %s' % tag, 'policy audit of %r, %d thread(s): exit status %r, highest-ranked target status is %r' % (lst, k, r['exit'], want), replay)
+            bad = True
+        if not bad:
+            ck.cov['traces_validated_against_impl'] += 1
+            ck.nontrivial(('policy-list', lst, k))
+
+
+def schedule_leg(ck, tier, H, F, rnd):
+    """A healthy target whose findings come from its probes, next to a target that fails, on two worker threads driven through the
+    schedules of SshSched.tla: the healthy target's JSON result is its single-target result under every schedule."""
+    hk = {'rsa-sha2-512': peers.rsa_blob(1024), 'ssh-rsa': peers.rsa_blob(1024), 'ssh-ed25519': peers.ed25519_blob()}
+    probed = peers.ServerCfg(banner=b'SSH-2.0-OpenSSH_7.4', kexinit={'kex': ['curve25519-sha256', 'diffie-hellman-group-exchange-sha256'], 'key': ['rsa-sha2-512', 'ssh-rsa', 'ssh-ed25519'],
+                                                                      'enc': ['aes128-ctr'], 'mac': ['hmac-sha2-256'], 'comp': ['none']}, hostkeys=hk,
+                             gex={'style': 'roundup', 'moduli': [1024]})
+    others = ['close-after-banner', 'truncated-kexinit', 'refused'] + (['gex-probe-silent', 'close-before-banner', 'ssh1-fallback-closed'] if tier == 'thorough' else [])
+    others = [('fail', ('server', H['fail']))] + [(n, F[n]) for n in others]
+    total = 0
+    for oname, other in others:
+        for order in ((0, 1), (1, 0)):
+            tg = [('server', probed), other] if order == (0, 1) else [other, ('server', probed)]
+            hi = 0 if order == (0, 1) else 1
+            sc, labels = multi.scenario(tg, 2, None, json_out=True)
+            ref = runner.run_many([multi.single_scenario(('server', probed), hi, json_out=True)])[0]
+            probe = runner.run_many([multi.scheduled(sc, [[0, -1], [1, -1]], labels)])[0]
+            if ref.get('harness_error') or ref.get('hang') or probe.get('harness_error') or not probe.get('sched'):
+                raise common.Machinery('schedule leg: reference runs failed (%s)' % oname)
+            ref_doc = json.loads(ref['stdout'])
+            ops = [max(1, probe['sched']['ops'].get(l, 0)) for l in labels]
+            plans, _ = multi.schedule_plans(ck, ops, 1 if tier == 'quick' else 2)
+            cap = 250 if tier == 'quick' else 3000
+            if len(plans) > cap:
+                plans = rnd.sample(plans, cap)
+            for pl, r in zip(plans, runner.run_many([multi.scheduled(sc, pl, labels) for pl in plans])):
+                ck.evaluated()
+                total += 1
+                replay = {'targets': ['probed-1024' if i == hi else oname for i in range(2)], 'plan': pl, 'argv': sc['argv'], 'exit': r.get('exit'), 'stdout': (r.get('stdout') or '')[-3000:]}
+                if r.get('harness_error'):
+                    raise common.Machinery('scheduled run failed: %r' % r.get('harness_error'))
+                if r.get('hang'):
+                    ck.violation('run-never-ends scheduled with=%s' % oname, 'healthy target next to %s under the schedule %r: the run never ended' % (oname, pl), replay)
+                    continue
+                out = r['stdout']
+                i0 = out.find('{"additional_notes"') if '"additional_notes"' in out else -1
+                el = None
+                try:
+                    doc = json.loads(out)
+                    el = next((e for e in doc if isinstance(e, dict) and e.get('target') == labels[hi]), None)
+                except ValueError:
+                    # (the raw error text of the failing target inside the array is the recorded finding json-array-broken: find the healthy element)
+                    dec = json.JSONDecoder()
+                    for m in range(len(out)):
+                        if out[m] == '{':
+                            try:
+                                cand, _ = dec.raw_decode(out[m:])
+                            except ValueError:
+                                continue
+                            if isinstance(cand, dict) and cand.get('target') == labels[hi]:
+                                el = cand
+                                break
+                if el is None:
+                    ck.violation('healthy-result-missing scheduled with=%s' % oname, 'healthy target next to %s under the schedule %r: no result for it' % (oname, pl), replay)
+                elif el != ref_doc:
+                    ck.violation('healthy-result-changed scheduled with=%s' % oname, 'healthy target next to %s under the schedule %r: its JSON result differs from its single-target result' % (oname, pl), replay)
+                else:
+                    ck.cov['traces_validated_against_impl'] += 1
+                    ck.nontrivial(('scheduled', oname, order, json.dumps(pl)))
+    ck.notes.append('schedule leg: %d scheduled two-target runs' % total)
+
+
 def run(tier):
     ck = common.Check('C08', tier)
     rnd = random.Random(ck.seed)
@@ -282,6 +423,8 @@ def run(tier):
         tmeta.append((m, tag))
     duplicates_leg(ck, H)
     json_options_leg(ck, H)
+    policy_leg(ck, H, F)
+    schedule_leg(ck, tier, H, F, rnd)
     verdicts = multi.validate(ck, traces)
     for j, ((m, tag), tr, (ok, info)) in enumerate(zip(tmeta, traces, verdicts)):
         if j in roots:
